@@ -302,9 +302,13 @@ func (s *BaseVisitor) EnterOC_Remove(c *parser.OC_RemoveContext) {}
 
 func (s *BaseVisitor) EnterOC_RemoveItem(c *parser.OC_RemoveItemContext) {}
 
-func (s *BaseVisitor) EnterOC_InQueryCall(c *parser.OC_InQueryCallContext) {}
+func (s *BaseVisitor) EnterOC_InQueryCall(c *parser.OC_InQueryCallContext) {
+	s.newUnsupportedRuleError(c)
+}
 
-func (s *BaseVisitor) EnterOC_StandaloneCall(c *parser.OC_StandaloneCallContext) {}
+func (s *BaseVisitor) EnterOC_StandaloneCall(c *parser.OC_StandaloneCallContext) {
+	s.newUnsupportedRuleError(c)
+}
 
 func (s *BaseVisitor) EnterOC_YieldItems(c *parser.OC_YieldItemsContext) {}
 
